@@ -13,15 +13,15 @@ import (
 
 func init() {
 	register(&Property{
-		ID:        "C02",
-		Title:     "Sort order, skip, limit and total count are exact",
-		Technique: "static analysis: sentinel/overflow rule for every arithmetic on paging values, path rule for the paging defaults (set-on-nil/negative edge), control-dependence rule for the total count, exhaustive decision tables of the five row comparators (abstract interpretation over nil/ordering/direction), listener pop-order rule",
-		LevelText: "Necessary conditions visible in the code's shape, decided for all inputs: paging arithmetic can neither overflow on the MaxInt64 'unbounded' sentinel nor see a negative skip; absent/negative skip and limit are replaced by 0 / unbounded before use on every path; the running total is incremented under the row-match condition only, never under a paging comparison, and the counting loop uses the unpaged step; each comparator returns nil-first, sign-of-ordering, negated iff descending for all 24 abstract cases; the comparator list always ends with id ascending; the query listener pops limit, skip, sort, predicate in that order and accepts only integer constants for skip/limit. Not decided: that llrb orders correctly and that the two scan strategies agree on real data.",
-		LevelNote: "Trusted: go/types, x/tools SSA, llrb ordering, the DECIDE interpreter in checker/decide.go (rejects anything it cannot evaluate).",
-		DesignRef: "DESIGN.md C02",
+		ID:          "C02",
+		Title:       "Sort order, skip, limit and total count are exact",
+		Technique:   "static analysis: sentinel/overflow rule for every arithmetic on paging values, path rule for the paging defaults (set-on-nil/negative edge), control-dependence rule for the total count, exhaustive decision tables of the five row comparators (abstract interpretation over nil/ordering/direction), listener pop-order rule",
+		LevelText:   "Necessary conditions visible in the code's shape, decided for all inputs: paging arithmetic can neither overflow on the MaxInt64 'unbounded' sentinel nor see a negative skip; absent/negative skip and limit are replaced by 0 / unbounded before use on every path; the running total is incremented under the row-match condition only, never under a paging comparison, and the counting loop uses the unpaged step; each comparator returns nil-first, sign-of-ordering, negated iff descending for all 24 abstract cases; the comparator list always ends with id ascending; the query listener pops limit, skip, sort, predicate in that order and accepts only integer constants for skip/limit. Not decided: that llrb orders correctly and that the two scan strategies agree on real data.",
+		LevelNote:   "Trusted: go/types, x/tools SSA, llrb ordering, the DECIDE interpreter in checker/decide.go (rejects anything it cannot evaluate).",
+		DesignRef:   "DESIGN.md C02",
 		Explanation: "Sites: every ADD/SUB/MUL with a targetLimit/targetOffset operand; every store to a count field in the scan functions; both setPaging bodies; the five Compare methods; newRowComparator; ExitSkipExpr/ExitLimitExpr/ExitQueryStmt.",
-		Trusted:   []string{"go/types", "golang.org/x/tools/go/ssa v0.29.0", "github.com/biogo/store/llrb"},
-		Rules:     rulesC02,
+		Trusted:     []string{"go/types", "golang.org/x/tools/go/ssa v0.29.0", "github.com/biogo/store/llrb"},
+		Rules:       rulesC02,
 		Controls: []controlExpect{
 			{"C02.ARITH", "zzControlBad_C02_ARITH", true},
 			{"C02.CMP", "zzControlBadCmpC02", true},
@@ -42,6 +42,51 @@ func rulesC02(c *Ctx) {
 	ruleRowComparatorFirstNonZero(c, "C02.CMP", c.P.SSAFunc(c.P.Method("boltz", "rowComparatorImpl", "Compare")))
 	ruleC02Parse(c)
 	ruleC02Scanner(c)
+	rulePageMatch(c, "C02.PAGEMATCH", "boltz")
+}
+
+// rulePageMatch: the skip/collected counters of the paged cursor count MATCHING rows: every
+// increment is control-dependent on the row-match result.
+func rulePageMatch(c *Ctx, rule, pkg string) {
+	p := c.P
+	n := 0
+	for _, fn := range c.prodFuncs(pkg) {
+		// only functions that evaluate the filter per row
+		hasEval := false
+		for _, call := range callsIn(fn) {
+			if invokeNamed(call, "EvalBool") {
+				hasEval = true
+			}
+		}
+		if !hasEval {
+			continue
+		}
+		fi := ComputeFacts(fn)
+		for _, b := range fn.Blocks {
+			for _, in := range b.Instrs {
+				st, ok := in.(*ssa.Store)
+				if !ok {
+					continue
+				}
+				f, _ := fieldOfAddr(st.Addr)
+				if f == nil || (f.Name() != "offset" && f.Name() != "collected") {
+					continue
+				}
+				if bo, isB := st.Val.(*ssa.BinOp); !isB || bo.Op != token.ADD {
+					continue
+				}
+				n++
+				c.Analysed(FnName(fn))
+				matched := fi.HoldsWhere(b, func(ft Fact) bool {
+					k, isCall := ft.V.(*ssa.Call)
+					return ft.Kind == "true" && ft.Pol && isCall && invokeNamed(k, "EvalBool")
+				})
+				c.Check(matched, rule, FnName(fn)+": "+f.Name()+"++", p.Pos(st.Pos()), "the paging counter advances only for rows that matched the filter", "the paging counter `"+f.Name()+"` advances for rows that were not (yet) tested against the filter: skip/limit would count non-matching rows")
+			}
+		}
+	}
+	c.Floor(rule, 2)
+	_ = n
 }
 
 // ---- ARITH -------------------------------------------------------------------------------------
